@@ -91,3 +91,14 @@ prepare_binding() {
 }
 prepare_C01() { prepare_binding; }
 prepare_C13() { prepare_binding; }
+
+# reduced differential built for a 32-bit target (GOARCH=386, runs on this amd64 kernel); optional: failure => that part is inconclusive
+build_arch386() {
+  (cd "$VERIF_ROOT/harness" && GOWORK=off CGO_ENABLED=0 GOARCH=386 "$GO_BIN" build $OVL -tags verif -o "$S/arch386" ./cmd/arch386) 2>>"$S/build.err" && export VERIF_ARCH386_BIN=$S/arch386
+  return 0
+}
+prepare_C01() { prepare_binding && build_arch386; }
+prepare_C02() { prepare_default && build_arch386; }
+prepare_C15() { prepare_default && build_arch386; }
+prepare_C16() { prepare_default && build_arch386; }
+prepare_C17() { prepare_default && build_arch386; }
